@@ -99,7 +99,8 @@ def _verify_one(args):
                 "npc": len(ob.pc),
             })
         return {"func": qualname, "status": rep.status, "reason": rep.reason, "paths": rep.paths, "time": round(rep.time, 3),
-                "digest": rep.digest, "obligations": obs, "assumptions": list(eng.assumptions), "variants": rep.variants}
+                "digest": rep.digest, "obligations": obs, "assumptions": list(eng.assumptions) + [f"inlined (no contract of its own): {q}" for q in sorted(eng.inlined)],
+                "variants": rep.variants}
     except Exception as e:      # noqa: BLE001
         return {"func": qualname, "status": "crash", "reason": f"{type(e).__name__}: {e}\n{traceback.format_exc()[-1500:]}",
                 "paths": 0, "time": 0, "digest": None, "obligations": [], "assumptions": [], "variants": 0}
